@@ -101,6 +101,13 @@ fn main() {
             let case = props::gen_case(prop, tier, seed, index, a.contains_key("miri"));
             println!("{}", serde_json::to_string_pretty(&case).unwrap());
         }
+        "nests" => {
+            let n = pools::systematic_nests();
+            println!("level1={} level2={}", pools::small_level1().len(), n.len());
+            for s in n.iter().step_by(n.len() / 12) {
+                println!("  {} len={}", s.short(), s.len());
+            }
+        }
         "miri-case" => {
             // Engine B: the case comes from argv (never from the shell environment)
             let prop = a.get("prop").expect("--prop");
